@@ -661,6 +661,67 @@ pub fn run(seed: u64, n: u64) {
         }
     }
     multi(seed, (n / 4).max(2), &global, &idp, &idp_other);
+    crafted_sharing(seed, &global, &idp);
+}
+
+/// An identity object whose `choice_ar_parameters` differ on ONE call of `get_common_pio_fields`: the call
+/// with which `prove_identity_attributes` picks the number of IdCredSec sharing coefficients.  Everything
+/// else (the signed threshold, the claimed threshold, the ephemeral id) keeps the signed value.
+struct CraftedIdObject<'a> {
+    inner: &'a IdentityObjectV1<IpPairing, ArCurve, W>,
+    alt: ChoiceArParameters,
+    calls: std::cell::Cell<u32>,
+    alt_on_call: u32,
+}
+impl HasIdentityObjectFields<IpPairing, ArCurve, W> for CraftedIdObject<'_> {
+    fn get_common_pio_fields(&self) -> CommonPioFields<'_, IpPairing, ArCurve> {
+        let n = self.calls.get() + 1;
+        self.calls.set(n);
+        let mut f = self.inner.get_common_pio_fields();
+        if n == self.alt_on_call { f.choice_ar_parameters = &self.alt; }
+        f
+    }
+    fn get_attribute_list(&self) -> &AttributeList<Scalar, W> { self.inner.get_attribute_list() }
+    fn get_signature(&self) -> &concordium_base::ps_sig::Signature<IpPairing> { self.inner.get_signature() }
+}
+
+/// Crafted prover: number of sharing-coefficient commitments = threshold - 1 / threshold / threshold + 1.
+fn crafted_sharing(seed: u64, global: &GlobalContext<ArCurve>, idp: &Idp) {
+    let mut r = Rng::new(seed ^ 0x6372);
+    let mut csprng = StdRng::seed_from_u64(seed ^ 0x6372);
+    let now = chrono::DateTime::parse_from_rfc3339("2024-02-29T12:00:00Z").unwrap().to_utc();
+    for (ci, ss) in [vec![S1::Value(1, A::N(42))], vec![S1::Base(St::Range(1, A::N(40), A::N(50)))], vec![]].into_iter().enumerate() {
+        let c = gen_cred(&mut r, &mut csprng, global, idp, true, true, Network::Testnet, Some((vec![(1u8, A::N(42)), (2u8, A::S("DK".into()))], ss)));
+        let Cred::Identity { inputs: OwnedCredentialProofPrivateInputs::Identity(own), .. } = &c else { continue };
+        let params = own.id_object.get_common_pio_fields().choice_ar_parameters.clone();
+        let t: u8 = params.threshold.into();
+        let context = ContextInformation { given: vec![LabeledContextProperty::ConnectionId("crafted".into()).to_context_property()], requested: vec![] };
+        for delta in [-1i32, 0, 1] {
+            let nt = t as i32 + delta;
+            if nt < 1 { continue; }
+            let Ok(alt_t) = concordium_base::id::secret_sharing::Threshold::try_from(nt as u8) else { continue };
+            // which call picks the sharing threshold is an implementation detail: try the first few positions and keep
+            // the presentation that is crafted as intended (coefficients = t + delta, claimed threshold = t)
+            let mut reported = false;
+            for call in 1u32..=6 {
+                let crafted = CraftedIdObject { inner: &own.id_object, alt: ChoiceArParameters { ar_identities: params.ar_identities.clone(), threshold: alt_t }, calls: std::cell::Cell::new(0), alt_on_call: call };
+                let inp = CredentialProofPrivateInputs::Identity(IdentityCredentialProofPrivateInputs { ip_context: IpContextOnly { ip_info: &own.ip_info, ars_infos: &own.ars_infos.anonymity_revokers }, id_object: &crafted, id_object_use_data: &own.id_object_use_data });
+                let req = RequestV1 { context: context.clone(), subject_claims: vec![c.claims()] };
+                let p = guarded(|| req.prove_with_rng(global, vec![inp].into_iter(), &mut StdRng::seed_from_u64(seed + 31 * call as u64), now));
+                let Ok(Ok(p)) = p else { continue };
+                let Some(CredentialV1::Identity(ic)) = p.verifiable_credentials.first() else { continue };
+                let ncoeff = ic.proof.proof_value.identity_attributes_proofs.cmm_id_cred_sec_sharing_coeff.len();
+                let claimed: Option<u8> = ic.subject.cred_id.try_to_data::<ArCurve>().ok().map(|d| d.threshold.into());
+                if ncoeff as i32 == nt && claimed == Some(t) {
+                    let res = vb(&p, global, &[c.material().clone()]);
+                    println!("{}", json!({"k":"crafted","name":"sharing_coefficients","case":ci,"delta":delta,"threshold":t,"ncoeff":ncoeff,"claimed_threshold":claimed,"call":call,"verify":res}));
+                    reported = true;
+                    break;
+                }
+            }
+            if !reported { println!("{}", json!({"k":"crafted","name":"sharing_coefficients","case":ci,"delta":delta,"threshold":t,"ncoeff":null,"verify":null})); }
+        }
+    }
 }
 
 /// Presentations with three credentials: every per-credential check of the request-anchor verification
